@@ -19,6 +19,7 @@ import (
 	"github.com/llir/llvm/ir/enum"
 	"github.com/llir/llvm/ir/metadata"
 	"github.com/llir/llvm/ir/types"
+	"github.com/llir/llvm/ir/value"
 )
 
 func init() { props["C13"] = runC13 }
@@ -65,6 +66,30 @@ func c13Modules(c *config) []func() *ir.Module {
 		md := &metadata.Tuple{MetadataID: -1}
 		m.MetadataDefs = append(m.MetadataDefs, md, &metadata.Tuple{MetadataID: -1, Fields: []metadata.Field{md}})
 		g.Metadata = append(g.Metadata, &metadata.Attachment{Name: "dbg", Node: md})
+		return m
+	})
+	// constructed, never printed, wide: thousands of unnamed globals, locals and metadata definitions, so that the
+	// read and the write phases of the three ID passes of different printers overlap for a long time
+	ms = append(ms, func() *ir.Module {
+		m := ir.NewModule()
+		for i := 0; i < 1500; i++ {
+			m.NewGlobalDef("", constant.NewInt(types.I32, int64(i)))
+		}
+		f := m.NewFunc("", types.I32, ir.NewParam("", types.I32))
+		b := f.NewBlock("")
+		var v value.Value = f.Params[0]
+		for i := 0; i < 1500; i++ {
+			v = b.NewAdd(v, constant.NewInt(types.I32, int64(i)))
+		}
+		b.NewRet(v)
+		var prev metadata.Field = &metadata.String{Value: "leaf"}
+		for i := 0; i < 3000; i++ {
+			md := &metadata.Tuple{MetadataID: -1, Fields: []metadata.Field{prev}}
+			m.MetadataDefs = append(m.MetadataDefs, md)
+			if i%3 == 0 {
+				prev = md
+			}
+		}
 		return m
 	})
 	// constructed, never printed: fields assigned after the constructors (address spaces, alignment,
